@@ -77,6 +77,10 @@ def witnesses(stats):
                       ("float-tiny", [x == z3.StringVal("1e-300")]),
                       ("float-many-digits", [x == z3.StringVal("123456789012345678.125")]),
                       ("int-max", [x == z3.StringVal("9223372036854775807")]),
+                      # empty for the pinned token definitions: integer spellings with letters (other bases), short and at full width
+                      ("int-with-a-letter", [z3.InRe(x, L["Int"]), z3.InRe(x, z3.Concat(z3.Star(z3.AllChar(z3.StringSort())) if hasattr(z3, "AllChar") else z3.Star(z3.Range(" ", "~")), z3.Union(z3.Range("a", "z"), z3.Range("A", "Z")), z3.Star(z3.Range(" ", "~")))), z3.Length(x) <= 6]),
+                      ("int-with-a-letter-full-width", [z3.InRe(x, L["Int"]), z3.Contains(x, z3.StringVal("FFFFFFFFFFFFFFFF")), z3.Length(x) <= 18]),
+                      ("int-with-a-letter-top-bit", [z3.InRe(x, L["Int"]), z3.Contains(x, z3.StringVal("8000000000000000")), z3.Length(x) <= 18]),
                       ("int-leading-zeros", [z3.InRe(x, L["Int"]), z3.PrefixOf(z3.StringVal("00"), x), z3.Length(x) == 3])]:
         for v in all_models(cs, 1): out.append((cname, "number", v))
     return out
@@ -87,7 +91,7 @@ def program_for(kind, spelling):
         return ("B :: blob {\n    %s: int,\n}\nstart :: fn do\n    b := B { %s: 1 }\n    b.%s = b.%s + 1\n    %s := 3\n    print(b.%s + %s)\nend\n" % ((spelling,) * 7))
     if kind == "string":
         return 'start :: fn do\n    s := "%s"\n    print(s)\n    print(s + "x")\nend\n' % spelling
-    return "start :: fn do\n    v := %s\n    print(v)\nend\n" % spelling
+    return "start :: fn do\n    v := %s\n    print(v)\n    w := -%s\n    print(w)\n    print(1 - -%s)\nend\n" % (spelling, spelling, spelling)
 
 
 # ------------------------------------------------------------------ structural family
